@@ -77,6 +77,7 @@ witness = witness_c
 
 _MAIN = r"""
 #include <sys/socket.h>
+void osmo_panic(const char *fmt, ...) { printf("osmo_panic\n"); fflush(stdout); abort(); }   /* OSMO_ASSERT of the code under test failed */
 int verif_fsm_state_chg(struct osmo_fsm_inst *fi, uint32_t st) { printf("fsm_chg=%u\n", st); fi->state = st; return 0; }
 void verif_fsm_term(struct osmo_fsm_inst *fi, enum osmo_fsm_term_cause cause, void *data) { printf("fsm_term=%d\n", (int)cause); }
 int talloc_free(void *p) { printf("freed\n"); free(p); return 0; }
